@@ -1,4 +1,5 @@
 mod campaign;
+mod pq;
 mod check;
 mod entropy;
 mod replay;
